@@ -75,6 +75,9 @@ class Walker:
                 for k in n.body:
                     if isinstance(k, ast.FunctionDef):
                         self.func(k, n.name + '.' + k.name)
+                    elif isinstance(k, (ast.Assign, ast.AnnAssign, ast.AugAssign)):
+                        # state shared by all instances of the class (and by all calls of solve in one process)
+                        self.defs.append((self.mod, n.name, 'classattr:' + ast.unparse(k), [], k.lineno))
 
     def func(self, fn, qual):
         a = fn.args
@@ -92,7 +95,7 @@ class Walker:
             if isinstance(c, ast.Call):
                 ln = last_name(c.func)
                 dt = dotted(c.func)
-                if ln in CALLEES or dt.startswith('np.random') or dt.startswith('random.'):
+                if ln in CALLEES or dt.startswith('np.random') or dt.startswith('random.') or dt.startswith('user_params.'):
                     args = [ast.unparse(x) for x in c.args] + ['%s=%s' % (k.arg, ast.unparse(k.value)) if k.arg else '**' + ast.unparse(k.value) for k in c.keywords]
                     self.calls.append((self.mod, qual, ln, dt, self.ordinal(qual, ln), args, list(guards), c.lineno))
             elif isinstance(c, ast.Lambda):
@@ -140,6 +143,8 @@ class Walker:
             if isinstance(s, (ast.Break, ast.Continue, ast.Raise)):
                 kind = type(s).__name__.lower()
                 self.flows.append((self.mod, qual, kind, self.ordinal(qual, '#' + kind), list(guards), getattr(s, 'lineno', 0)))
+            if isinstance(s, ast.Delete):
+                self.flows.append((self.mod, qual, ast.unparse(s), self.ordinal(qual, '#del'), list(guards), s.lineno))
             if isinstance(s, (ast.Assign, ast.AugAssign, ast.AnnAssign)):
                 targets = s.targets if isinstance(s, ast.Assign) else [s.target]
                 flat = []
